@@ -1,10 +1,12 @@
 import GGV.Run.ISet
+import GGV.Run.Excerpt
 /-! `ggmodel`: one request per line `<id> <suite> <op> <args…>`, one reply per line `<id> <result>`. -/
 open GGV.Run
 
 def dispatch (suite op : String) (args : List String) : String :=
   match suite with
   | "iset" => isetSuite op args
+  | "excerpt" => excerptSuite op args
   | _ => "bad-suite"
 
 partial def loop (hin : IO.FS.Stream) (hout : IO.FS.Stream) : IO Unit := do
